@@ -1010,5 +1010,9 @@ func (c *SpecCtx) tryModWitness(a, b *Term) *Term {
 		return nil
 	}
 	x := a.Args[0]
-	return And(Eq(rest, Int(0)), Eq(x, mk("+", SInt, mk("*", SInt, IntB(m), k), rest)))
+	// two separate obligations: Rest = 0 needs the meaning of div (ranges) but no algebra;
+	// the identity X = m*K + Rest is pure linear algebra over the div terms and the limb
+	// products, so it is checked with both abstracted to uninterpreted symbols.
+	c.tr.vc.pendingIdentity = append(c.tr.vc.pendingIdentity, Eq(x, mk("+", SInt, mk("*", SInt, IntB(m), k), rest)))
+	return Eq(rest, Int(0))
 }
